@@ -39,7 +39,7 @@ def judge_factory():
                 what = f"the call reported {rec['ret']} but told the adapter {rec['acalls']}"
             elif not before_on and rec["acalls"]:
                 what = f"auto-save is off but the adapter was told {rec['acalls']}"
-            elif not ever_off and not raised and not rec["mirror"] and not any(o[0] == "clear" or (o[0] == "updatemany" and len({tuple(r) for r in o[1]}) < len(o[1])) for o in hist[: i + 1]):
+            elif not ever_off and not rec["mirror"] and not any(o[0] == "clear" or (o[0] == "updatemany" and len({tuple(r) for r in o[1]}) < len(o[1])) for o in hist[: i + 1]):
                 what = f"after the call (result {rec['ret']}) the adapter holds {rec['store']} while memory holds {rec['pol']}"
         elif op[0] == "save":
             if not rec["mirror"]:
